@@ -1,4 +1,4 @@
 // harness TU for R1 (double)
 #define HX_HAS_ROTATION 0
 #include "generic.h"
-namespace hx { void run_R1(const Req& r, Resp& R) { run<manif::R1d>(r, R); } }
+namespace hx { void run_R1(const Req& r, Resp& R) { run<manif::Rn<HX_SC, 1>>(r, R); } }
